@@ -12,7 +12,9 @@ import (
 	"strconv"
 	"strings"
 	"sync"
+	"sync/atomic"
 	"testing"
+	"time"
 
 	"pgregory.net/rapid"
 
@@ -60,7 +62,11 @@ func (p *part[C]) rec() *ev.Recorder { return p.recorder }
 // safe runs the check and turns a panic escaping the library into a violation:
 // every property's domain consists of arguments the library must answer.
 func (p *part[C]) safe(c C) (v verdict) {
+	watchOnce.Do(watchFlights)
+	f := &flight{id: p.id, part: p.name, c: c, start: time.Now(), rec: p.recorder}
+	curFlight.Store(f)
 	defer func() {
+		curFlight.CompareAndSwap(f, nil)
 		if r := recover(); r != nil {
 			v.Err = fmt.Errorf("panic: %v\n%s", r, trimStack(debug.Stack()))
 			v.NT = true
@@ -68,6 +74,35 @@ func (p *part[C]) safe(c C) (v verdict) {
 		}
 	}()
 	return p.check(c)
+}
+
+// Every case of every part runs under one watchdog: a case that is still running after flightBudget (cases take
+// microseconds to a few seconds; the longest deliberate waits inside a check add up to well under a minute) means that a
+// call it made blocks or that its work does not end - "returns X" includes returning. The case is written as the replay
+// and the process ends (the blocked goroutine cannot be stopped). The budget is far above anything machine load produces.
+type flight struct {
+	id, part string
+	c        any
+	start    time.Time
+	rec      *ev.Recorder
+}
+
+const flightBudget = 150 * time.Second
+
+var (
+	curFlight atomic.Pointer[flight]
+	watchOnce sync.Once
+)
+
+func watchFlights() {
+	go func() {
+		for {
+			time.Sleep(2 * time.Second)
+			if f := curFlight.Load(); f != nil && time.Since(f.start) > flightBudget {
+				hang(f.id, f.part, f.c, f.rec, fmt.Sprintf("the case did not finish within %v (cases of this part take from microseconds to a few seconds): a call it makes blocks, or its work does not end", flightBudget))
+			}
+		}
+	}()
 }
 
 // eval records and evaluates one case; returns the violation or nil.
